@@ -38,16 +38,10 @@ inductive EK where
   | other (n : Nat)                      -- outside the modelled envelope (never generated)
   deriving DecidableEq, Repr, Inhabited
 
-/-- Strings: literal atoms, runtime error messages, and the text a non-string value is turned into
-when an error crosses a `for`-consumed iterator in the *implementation* (finding F-C04-6; the
-guide-level configuration never produces `disp`). -/
+/-- Strings: literal atoms and runtime error messages. -/
 inductive Str where
   | lit (n : Nat)
   | err (k : EK)
-  | dispNull
-  | dispBool (b : Bool)
-  | dispInt (i : Int)
-  | dispObj (c : Nat)
   deriving DecidableEq, Repr, Inhabited
 
 inductive Val where
